@@ -7,7 +7,15 @@ set -u
 cd "$(dirname "$0")"
 what="${1:-all}"; shift || true
 props="${*:-C02 C03 C05 C06 C07 C10 C11 C14 C15 C18 C19}"
-if [ -n "$(git -C /repo status --porcelain --untracked-files=no)" ]; then echo "/repo has uncommitted changes" >&2; exit 2; fi
+REPO="${VERIF_REPO:-/repo}"
+if [ "${SENS_CLONE:-0}" = 1 ]; then
+    # work on a private clone so that /repo itself is never touched (background runs)
+    REPO="/tmp/sens-repo.$$"
+    rm -rf "$REPO"; git clone -q /repo "$REPO" || exit 2
+    export VERIF_REPO="$REPO"
+    trap 'rm -rf "$REPO"' EXIT
+fi
+if [ -n "$(git -C "$REPO" status --porcelain --untracked-files=no)" ]; then echo "$REPO has uncommitted changes" >&2; exit 2; fi
 run_checks() { # label
     local label="$1" line="" p rc
     for p in $props; do
@@ -18,25 +26,25 @@ run_checks() { # label
     rm -f /tmp/sens.$$.log
 }
 if [ "$what" = fixes ] || [ "$what" = all ]; then
-    for c in $(git -C /repo log --format=%h --reverse --grep='^fix:' ); do
-        subj="$(git -C /repo log -1 --format=%s $c | cut -c1-70)"
-        if git -C /repo show $c | git -C /repo apply -R 2>/dev/null; then
+    for c in $(git -C "$REPO" log --format=%h --reverse --grep='^fix:' ); do
+        subj="$(git -C "$REPO" log -1 --format=%s $c | cut -c1-70)"
+        if git -C "$REPO" show $c | git -C "$REPO" apply -R 2>/dev/null; then
             run_checks "revert $c $subj"
         else
             echo "revert $c $subj | (does not apply in reverse on top of later fixes)"
         fi
-        git -C /repo checkout -- . 
+        git -C "$REPO" checkout -- . 
     done
 fi
 if [ "$what" = seeded ] || [ "$what" = all ]; then
     for d in seeded/*/; do
         [ -f "$d/patch.diff" ] || continue
-        if git -C /repo apply "$PWD/$d/patch.diff" 2>/dev/null; then
+        if git -C "$REPO" apply "$PWD/$d/patch.diff" 2>/dev/null; then
             run_checks "seeded $(basename $d)"
         else
             echo "seeded $(basename $d) | (patch does not apply)"
         fi
-        git -C /repo checkout -- .
+        git -C "$REPO" checkout -- .
     done
 fi
 ./check build >/dev/null 2>&1
